@@ -146,6 +146,28 @@ fn tx_script(kind: &str, rng: &mut Rng, t: usize, tag: &mut u64, ps: u64) -> TxS
                 put(&mut ops, 0, t % nkeys, 60);
             }
         }
+        "bucket-written-then-deleted" => {
+            // the bucket the previous transaction created and filled is opened, written to (its pages are now
+            // in-memory nodes of this transaction) and then deleted in the same transaction; another one is
+            // created and filled for the next round.  A page that is both "materialised" and "to be freed" must
+            // still be freed exactly once (seeded change C10-m skipped such pages as a double-free guard:
+            // they are freed nowhere and the high-water mark climbs by the bucket's size every transaction)
+            let cur = t % 4;
+            let next = (t + 1) % 4;
+            if t > 0 {
+                ops.push(Op::GetOrCreate { h: 0, k: K::lit(format!("wd{}", cur).as_bytes()), how: How::Slice });
+                for j in 0..3 {
+                    put(&mut ops, 1, 7 * j + t % 5, 200);
+                }
+                ops.push(Op::Delete { h: 1, k: key(50 + t % 7) });
+                ops.push(Op::DeleteB { h: 0, k: K::lit(format!("wd{}", cur).as_bytes()), how: How::Slice });
+            }
+            ops.push(Op::GetOrCreate { h: 0, k: K::lit(format!("wd{}", next).as_bytes()), how: How::Slice });
+            let hn = if t > 0 { 2 } else { 1 };
+            for j in 0..40 {
+                put(&mut ops, hn, j + 20 * (t % 3), 180 + (t % 4) * 60);
+            }
+        }
         "bucket-create-delete-overflow" => {
             // sub-buckets holding multi-page values: deleting them must return the overflow pages too
             let del = t % 4;
@@ -607,6 +629,11 @@ pub fn cases(ctx: &Ctx) -> Vec<Case> {
                 });
             }
         }
+    }
+    // a bucket that is written to and deleted in one transaction, with and without reopen
+    for reopen in [0usize, 7] {
+        i += 1;
+        v.push(Case { kind: "bucket-written-then-deleted".to_string(), pagesize: 1024, txs: (t / 2).clamp(150, 1500), reopen_every: reopen, reader: (0, 0), handover: false, readers: vec![], seed: ctx.seed.wrapping_mul(733).wrapping_add(i) });
     }
     // multi-page free lists, also at the moment the file is closed and reopened
     for reopen in [0usize, 1, 3, 4] {
